@@ -43,6 +43,9 @@ pub enum Op {
     /// handle for 300 ms; the opener sends `count` notifications the moment it sees the stream open (they queue up behind the
     /// other side's unread stream-opened event), and a few more after the stall
     OpenBehindStall { opener: u8, sync: bool, count: u8 },
+    /// the receiver's user stalls with `count` notifications queued, the connection is cut and re-established, and a new
+    /// stream is opened (auto-accept) and used before the user reads on
+    ReconnectBehindStall { opener: u8, sync: bool, count: u8 },
 }
 
 #[derive(Debug, Clone, Serialize, Deserialize)]
@@ -52,6 +55,9 @@ pub struct Case {
     pub max_size: [u16; 2],
     pub ops: Vec<Op>,
     pub seed: u64,
+    /// both nodes accept inbound streams without asking the user
+    #[serde(default)]
+    pub auto_accept: bool,
 }
 
 pub const SIG_STALE: &str = "C12/backlog-of-a-closed-stream-delivered-after-the-reopen-behind-a-gap";
@@ -96,7 +102,7 @@ fn config_strategy() -> impl Strategy<Value = (u16, u8, [u16; 2])> {
 
 fn strategy() -> impl Strategy<Value = Case> {
     (config_strategy(), prop::collection::vec(op_strategy(), 2..12), any::<u64>())
-        .prop_map(|((sync_channel, async_channel, max_size), ops, seed)| Case { sync_channel, async_channel, max_size, ops, seed })
+        .prop_map(|((sync_channel, async_channel, max_size), ops, seed)| Case { sync_channel, async_channel, max_size, ops, seed, auto_accept: false })
 }
 
 /// The receiver's user stalls, then the sender pushes more than the receiver can buffer: the sender's connection task has
@@ -127,7 +133,7 @@ fn backpressure_strategy() -> impl Strategy<Value = Case> {
                 ops.push(Op::Send { node: sender, sync, count, size });
             }
             ops.extend(post);
-            Case { sync_channel, async_channel, max_size, ops, seed }
+            Case { sync_channel, async_channel, max_size, ops, seed, auto_accept: false }
         })
 }
 
@@ -149,7 +155,7 @@ fn window_cycles_strategy() -> impl Strategy<Value = Case> {
         ),
         any::<u64>(),
     )
-        .prop_map(|(sync_channel, async_channel, max_size, ops, seed)| Case { sync_channel, async_channel, max_size, ops, seed })
+        .prop_map(|(sync_channel, async_channel, max_size, ops, seed)| Case { sync_channel, async_channel, max_size, ops, seed, auto_accept: false })
 }
 
 /// Streams opened towards a user that does not read its handle at that moment, with traffic right behind the open.
@@ -158,7 +164,18 @@ fn open_behind_stall_strategy() -> impl Strategy<Value = Case> {
         4 => (0u8..2, any::<bool>(), prop_oneof![Just(1u8), Just(5), Just(40)]).prop_map(|(opener, sync, count)| Op::OpenBehindStall { opener, sync, count }),
         1 => op_strategy(),
     ];
-    (config_strategy(), prop::collection::vec(item, 1..4), any::<u64>()).prop_map(|((sync_channel, async_channel, max_size), ops, seed)| Case { sync_channel, async_channel, max_size, ops, seed })
+    (config_strategy(), prop::collection::vec(item, 1..4), any::<u64>()).prop_map(|((sync_channel, async_channel, max_size), ops, seed)| Case { sync_channel, async_channel, max_size, ops, seed, auto_accept: false })
+}
+
+/// Auto-accepting nodes; the receiver's user stalls with a backlog, the connection is cut and re-established and the new
+/// stream is in use before the user reads on. Random extra operations around it.
+fn reconnect_behind_stall_strategy() -> impl Strategy<Value = Case> {
+    let item = prop_oneof![
+        4 => (0u8..2, any::<bool>(), prop_oneof![Just(1u8), Just(5), Just(40)]).prop_map(|(opener, sync, count)| Op::ReconnectBehindStall { opener, sync, count }),
+        1 => op_strategy(),
+    ];
+    (config_strategy(), prop::collection::vec(item, 1..4), any::<u64>())
+        .prop_map(|((sync_channel, async_channel, max_size), ops, seed)| Case { sync_channel, async_channel, max_size, ops, seed, auto_accept: true })
 }
 
 fn connected(log: &[Obs], node: usize, peer: &PeerId) -> bool {
@@ -196,7 +213,7 @@ fn run_case(c: &Case) -> CaseResult {
                     seed: c.seed % 500 + 50_000 + i as u64,
                     keep_alive: Some(Duration::from_secs(20)),
                     notif: Some(NotifSetup {
-                        auto_accept: false,
+                        auto_accept: c.auto_accept,
                         sync_channel: c.sync_channel as usize,
                         async_channel: c.async_channel as usize,
                         max_size: max[i],
@@ -264,6 +281,7 @@ fn run_case(c: &Case) -> CaseResult {
     let mut longest_stall = 0u64;
     let mut throttled = false;
     let mut opened_behind_stall = false;
+    let mut reconnected_behind_stall = false;
 
     let send = |nodes: &Vec<Node>, next_tag: &mut HashMap<(usize, bool), u64>, n: usize, sync: bool, count: u32, size: usize| {
         let e = next_tag.entry((n, sync)).or_insert(1);
@@ -324,6 +342,57 @@ fn run_case(c: &Case) -> CaseResult {
                 let _ = reopen(&nodes, &log);
             }
             Op::Sleep { ms } => std::thread::sleep(Duration::from_millis(*ms as u64)),
+            Op::ReconnectBehindStall { opener, sync, count } => {
+                if !c.auto_accept {
+                    continue;
+                }
+                let u = *opener as usize % 2;
+                let v = 1 - u;
+                if !reopen(&nodes, &log) {
+                    continue;
+                }
+                if let Some(until) = stall_until[v] {
+                    std::thread::sleep(until.saturating_duration_since(std::time::Instant::now()));
+                }
+                // the receiver's user: stalled now; when it reads on it is told the old stream closed, asks for a new one at once
+                // (its side auto-accepts the reverse substream) and pauses again before reading anything else
+                nodes[v].send(Cmd::NotifReopenOnClosed(true));
+                nodes[v].send(Cmd::NotifStallAfterClosed(Duration::from_millis(500)));
+                nodes[v].send(Cmd::NotifStall(Duration::from_millis(700)));
+                stall_until[v] = Some(std::time::Instant::now() + Duration::from_millis(1200));
+                longest_stall = longest_stall.max(1200);
+                std::thread::sleep(Duration::from_millis(5));
+                send(&nodes, &mut next_tag, u, *sync, *count as u32, 8);
+                sent_any = true;
+                std::thread::sleep(Duration::from_millis(40));
+                let _ = nodes[u].probes[0].send(ProbeCmd::ForceClose(peers[v]));
+                let mark = log.lock().len();
+                let mut up = false;
+                if wait_until(&log, Duration::from_millis(2000), |l| !connected(l, 0, &p1) && !connected(l, 1, &p0)) {
+                    // back up while the receiver's user is still stalled
+                    for _ in 0..3 {
+                        nodes[0].send(Cmd::DialAddress(addr1.clone()));
+                        if wait_until(&log, Duration::from_millis(600), |l| connected(l, 0, &p1) && connected(l, 1, &p0)) {
+                            up = true;
+                            break;
+                        }
+                    }
+                }
+                if up {
+                    // the receiver's own request (made the moment it reads the closed event) opens the stream while its user
+                    // pauses: the sender sees it open and uses it; the backlog of the old stream is still in the receiver's queue
+                    let opened = wait_until(&log, Duration::from_millis(1500), |l| l[mark.min(l.len())..].iter().any(|o| o.node == u && matches!(&o.kind, ObsKind::NotifOpened { peer, .. } if *peer == peers[v])));
+                    if opened && stall_until[v].map(|t| t > std::time::Instant::now() + Duration::from_millis(100)).unwrap_or(false) {
+                        reconnected_behind_stall = true;
+                        send(&nodes, &mut next_tag, u, *sync, 2, 8);
+                    }
+                }
+                nodes[v].send(Cmd::NotifReopenOnClosed(false));
+                nodes[v].send(Cmd::NotifStallAfterClosed(Duration::ZERO));
+                if let Some(until) = stall_until[v] {
+                    std::thread::sleep(until.saturating_duration_since(std::time::Instant::now()) + Duration::from_millis(80));
+                }
+            }
             Op::OpenBehindStall { opener, sync, count } => {
                 let u = *opener as usize % 2;
                 let v = 1 - u;
@@ -437,6 +506,8 @@ fn run_case(c: &Case) -> CaseResult {
         let mut accepted: HashMap<bool, Vec<(u64, u32)>> = HashMap::new();
         // sync sends answered NoConnection: (tag, epoch) — nothing sent later through the sync mode in that epoch may arrive
         let mut no_connection: Vec<(u64, u32)> = Vec::new();
+        // when the burst a tag belongs to had been handed to the sending API completely
+        let mut burst_done: HashMap<u64, std::time::Instant> = HashMap::new();
         for o in history.iter().filter(|o| o.node == s) {
             match &o.kind {
                 ObsKind::NotifOpened { peer, .. } if *peer == peers[r] => open = true,
@@ -467,6 +538,9 @@ fn run_case(c: &Case) -> CaseResult {
                             v.push((*t, epoch));
                         }
                     }
+                    for t in acc {
+                        burst_done.insert(*t, o.t);
+                    }
                 }
                 _ => {}
             }
@@ -476,10 +550,18 @@ fn run_case(c: &Case) -> CaseResult {
         // the receiver's own count of closed streams with this peer at the moment each tag was delivered
         let mut delivered_in_epoch: HashMap<u64, u32> = HashMap::new();
         let mut r_epoch = 0u32;
+        let mut r_closes: Vec<std::time::Instant> = Vec::new();
+        let mut r_last_open: Option<std::time::Instant> = None;
         for o in history.iter().filter(|o| o.node == r) {
             if let ObsKind::NotifClosed { peer } = &o.kind {
                 if *peer == peers[s] {
                     r_epoch += 1;
+                    r_closes.push(o.t);
+                }
+            }
+            if let ObsKind::NotifOpened { peer, .. } = &o.kind {
+                if *peer == peers[s] {
+                    r_last_open = Some(o.t);
                 }
             }
             if let ObsKind::NotifReceived { peer, data } = &o.kind {
@@ -503,6 +585,21 @@ fn run_case(c: &Case) -> CaseResult {
                 );
                 let sync = (tag >> 48) & 1 == 1;
                 ensure!(tag >> 56 == s as u64 + 1, "C12/notification-corrupted", "node {r} received tag {tag:#x} that node {s} never sent");
+                // A stream can only come about after the receiver's user has read the closed event of the previous one (it has to
+                // validate it or to ask for it, and its handle refuses while it still shows the old stream). So a notification that
+                // had been handed to the sending API before the receiver's user was told of a close cannot belong to a stream the
+                // receiver's user was told of after that close: it is backlog of the closed stream.
+                if let Some(done) = burst_done.get(&tag) {
+                    if let Some(c_min) = r_closes.iter().find(|c| **c > *done) {
+                        if r_last_open.map(|op| op > *c_min).unwrap_or(false) {
+                            fail!(
+                                "C12/notification-of-a-closed-stream-delivered-under-the-next-stream",
+                                "node {s} -> {r}: tag {tag:#x} had been accepted for sending {} ms before node {r}'s user was told that the stream closed; the user was then told of a new stream and handed that notification under it",
+                                c_min.duration_since(*done).as_millis()
+                            );
+                        }
+                    }
+                }
                 received.entry(sync).or_default().push(tag);
                 delivered_in_epoch.insert(tag, r_epoch);
                 delivered_total += 1;
@@ -564,6 +661,7 @@ fn run_case(c: &Case) -> CaseResult {
         .nt(big_under_stall || clog_seen || oversize_sent || (traffic_then_close && delivered_total > 0) || delivered_bytes > 1 << 20)
         .class_if(big_under_stall, "burst-over-4096-while-receiver-stalled")
         .nt(opened_behind_stall)
+        .class_if(reconnected_behind_stall, "new-stream-after-reconnect-used-while-the-receiver-still-holds-a-backlog")
         .class_if(opened_behind_stall, "stream-opened-towards-a-stalled-reader-with-traffic-behind")
         .class_if(throttled, "slow-consumer")
         .class_if(throttled && delivered_total > 4200, "slow-consumer-received-more-than-4200")
@@ -594,6 +692,7 @@ pub fn run(ctx: &mut Ctx) {
     let t = ctx.tier;
     ctx.campaign("scripts", CampaignCfg::new(t.pick(320, 6_000)).shards(16).shrink_iters(6), strategy, run_case);
     ctx.campaign("window-cycles", CampaignCfg::new(t.pick(160, 3_000)).shards(16).shrink_iters(6), window_cycles_strategy, run_case);
+    ctx.campaign("reconnect-behind-stall", CampaignCfg::new(t.pick(96, 2_000)).shards(16).shrink_iters(6), reconnect_behind_stall_strategy, run_case);
     ctx.campaign("open-behind-stall", CampaignCfg::new(t.pick(96, 2_000)).shards(16).shrink_iters(6), open_behind_stall_strategy, run_case);
     ctx.campaign("backpressure", CampaignCfg::new(t.pick(160, 3_000)).shards(16).shrink_iters(6), backpressure_strategy, run_case);
 }
